@@ -1,5 +1,8 @@
 import TinysetModel.Proofs.PropsAux
 import TinysetModel.Proofs.Demo
+import TinysetModel.Properties.C01
+import TinysetModel.Properties.C02
+import TinysetModel.Properties.C04
 /-! C08 — `==` means same members whatever the history/layout; equal Set64s hash equally.
 
 `eqSet` is `PartialEq::eq` of SetU64/SetU32/SetUsize (`impl_set_methods!`: compare `len`, then every member of
@@ -94,6 +97,71 @@ example : eqSet cfg64 Demo.inline (.heap 3 4 9838956529666160483 #[1000, 5, 0, 3
 example : hashInput cfg64 Demo.inline = hashInput cfg64 (.heap 3 4 9838956529666160483 #[1000, 5, 0, 3]) :=
   hash_of_eq cfg64_ok Demo.inline64_wf demo_table_wf (by decide +kernel)
 example : eqSet cfg64 Demo.inline Demo.bitmap64 = false := by decide +kernel
+
+/-! ### `==` of the model is `PartialEq::eq` of the current source: `Generated/Loops.lean` holds the body of `eq` from the
+`impl_set_methods!` macro of `copyset.rs` (SetU64, SetU32, SetUsize) and from `set64.rs` (`Set64<T>`), translated on
+every run — the `len()` test, the `for` loop over one operand with the early `return false`; the two `len()`s, the
+iterated operand and the other operand's `contains` are its parameters -/
+
+theorem set_eq_loop (sl ol : Nat) (f : Nat → Bool) : ∀ xs : List Nat, Gen.set_eq_loop1 sl ol f xs = xs.all f := by
+  intro xs
+  induction xs with
+  | nil => rfl
+  | cons x xs ih => cases hx : f x <;> simp [Gen.set_eq_loop1, hx, ih]
+theorem set64_eq_loop (sl ol : Nat) (f : Nat → Bool) : ∀ xs : List Nat, Gen.set64_eq_loop1 sl ol f xs = xs.all f := by
+  intro xs
+  induction xs with
+  | nil => rfl
+  | cons x xs ih => cases hx : f x <;> simp [Gen.set64_eq_loop1, hx, ih]
+
+theorem all_congr_mem {f g : Nat → Bool} : ∀ (l : List Nat), (∀ x ∈ l, f x = g x) → l.all f = l.all g := by
+  intro l
+  induction l with
+  | nil => intro _; rfl
+  | cons x xs ih =>
+    intro h
+    simp only [List.all_cons, h x (by simp), ih (fun y hy => h y (by simp [hy]))]
+
+/-- fed with the model's `len`, members and `contains`, the translated `eq` is the model's `==` (both forms) -/
+theorem eq_is_the_source (c : Cfg) (a b : Rp) :
+    Gen.set_eq (len a) (len b) (elems c a) (contains c b) = eqSet c a b ∧
+    Gen.set64_eq (len a) (len b) (elems c b) (contains c a) = eqSet64 c a b := by
+  constructor
+  · simp only [Gen.set_eq, set_eq_loop, eqSet]
+    by_cases h : len a = len b <;> simp [h]
+  · simp only [Gen.set64_eq, set64_eq_loop, eqSet64]
+    by_cases h : len a = len b <;> simp [h]
+
+/-- **`==` through the source's own code, end to end** (`SetU64`): the translated `eq`, fed with what the translated
+`Inner::next` yields on `a` (`source_iteration_yields_elems_u64`) and with the translated `contains` run on `b`
+(`source_contains_is_model_u64`), answers `true` exactly when the two well-formed sets have the same members -/
+theorem source_eq_is_equality_u64 {a b : Rp} (wa : WF cfg64 a) (wb : WF cfg64 b) :
+    Gen.set_eq (len a) (len b) (srcDrain64 a ((elems cfg64 a).length + 1) (cursorOf a)) (C01.srcContains64 b) = true ↔
+      ∀ x, x ∈ elems cfg64 a ↔ x ∈ elems cfg64 b := by
+  rw [C04.source_iteration_yields_elems_u64 wa, ← eq_iff_same_members_u64 wa wb, ← (eq_is_the_source cfg64 a b).1]
+  simp only [Gen.set_eq, set_eq_loop]
+  have hall : (elems cfg64 a).all (C01.srcContains64 b) = (elems cfg64 a).all (contains cfg64 b) := by
+    apply all_congr_mem
+    intro x hx
+    exact C01.source_contains_is_model_u64 wb x ((absOK_of_wf cfg64_ok wa).range x hx)
+  rw [hall]
+
+/-- `SetU32` (a dense bitset of at most 2^27 words in `a`; `b`'s capacity a `u32`) -/
+theorem source_eq_is_equality_u32 {a b : Rp} (wa : WF cfg32 a) (wb : WF cfg32 b)
+    (hda : ∀ sz cap t, a = .heap sz cap 32 t → t.size ≤ 2 ^ 27) (hnb : capacity b < 2 ^ 32) :
+    Gen.set_eq (len a) (len b) (srcDrain32 a ((elems cfg32 a).length + 1) (cursorOf a)) (C02.srcContains32 b) = true ↔
+      ∀ x, x ∈ elems cfg32 a ↔ x ∈ elems cfg32 b := by
+  rw [C04.source_iteration_yields_elems_u32 wa hda, ← eq_iff_same_members_u32 wa wb, ← (eq_is_the_source cfg32 a b).1]
+  simp only [Gen.set_eq, set_eq_loop]
+  have hall : (elems cfg32 a).all (C02.srcContains32 b) = (elems cfg32 a).all (contains cfg32 b) := by
+    apply all_congr_mem
+    intro x hx
+    exact C02.source_contains_is_model_u32 wb x ((absOK_of_wf cfg32_ok wa).range x hx) hnb
+  rw [hall]
+
+/-- not vacuous -/
+example : Gen.set_eq 2 2 [1, 2] (fun v => v == 1 || v == 2) = true ∧ Gen.set_eq 2 2 [1, 3] (fun v => v == 1 || v == 2) = false ∧
+    Gen.set_eq 2 3 [1, 2] (fun _ => true) = false := by decide
 
 end C08
 
